@@ -33,8 +33,10 @@ import (
 	"strconv"
 	"strings"
 	"sync"
+	"unicode/utf8"
 
 	"github.com/caddyserver/caddy/v2"
+	"github.com/caddyserver/caddy/v2/caddyconfig/caddyfile"
 	"github.com/caddyserver/caddy/v2/modules/caddyhttp"
 	_ "github.com/caddyserver/caddy/v2/modules/caddyhttp/encode/brotli"
 	_ "github.com/caddyserver/caddy/v2/modules/caddyhttp/encode/gzip"
@@ -220,6 +222,8 @@ type serveCase struct {
 	pre      [3]bool  // precompressed gzip, br, zstd configured
 	accepted []string // what encode.AcceptedEncodings shall return, in order
 	query    string    // r.URL.RawQuery
+	via          byte // 's' struct literal (default), 'j' JSON, 'c' Caddyfile tokens
+	indexOmitted bool // index_names not configured at all: Provision's default applies
 	fault    faultSpec // only inside a `pair` case: how this request's listing fails to be delivered
 	path, orig        string
 	tree              map[string]kind
@@ -337,30 +341,139 @@ func runServe(c serveCase) (serveObs, error) {
 			indexCfg[i] = "{http.vars." + k + "}"
 		}
 	}
-	fsrv := &fileserver.FileServer{
-		FileSystem:    fsName,
-		Root:          rootCfg,
-		Hide:          hideCfg,
-		IndexNames:    indexCfg,
-		PassThru:      c.pass,
-		CanonicalURIs: &canon,
+	if c.indexOmitted {
+		indexCfg = nil
 	}
-	if c.browse {
-		fsrv.Browse = &fileserver.Browse{}
-		if c.fault.kind == 't' {
-			fsrv.Browse.TemplateFile = faultTemplate()
-		}
-	}
+	var preNames []string
 	for i, name := range []string{"gzip", "br", "zstd"} {
 		if c.pre[i] {
+			preNames = append(preNames, name)
+		}
+	}
+	via := c.via
+	if c.fault.kind == 't' {
+		via = 's'
+	}
+	allUTF8 := utf8.ValidString(rootCfg)
+	for _, x := range append(append([]string{}, hideCfg...), indexCfg...) {
+		allUTF8 = allUTF8 && utf8.ValidString(x)
+	}
+	if (via == 'j' && !allUTF8) || (via == 'c' && indexCfg != nil && len(indexCfg) == 0) {
+		via = 's' // not expressible that way: JSON strings are UTF-8, `index` needs an argument
+	}
+	var fsrv *fileserver.FileServer
+	switch via {
+	case 'j':
+		// the configuration as JSON, decoded and provisioned by caddy (LoadModuleByID)
+		cfg := map[string]any{"fs": fsName}
+		if rootCfg != "" {
+			cfg["root"] = rootCfg
+		}
+		if len(hideCfg) > 0 {
+			cfg["hide"] = hideCfg
+		}
+		if indexCfg != nil {
+			cfg["index_names"] = indexCfg
+		}
+		if c.browse {
+			cfg["browse"] = map[string]any{}
+		}
+		if c.pass {
+			cfg["pass_thru"] = true
+		}
+		if !c.can {
+			cfg["canonical_uris"] = false
+		}
+		if len(preNames) > 0 {
+			pm := map[string]any{}
+			for _, n := range preNames {
+				pm[n] = map[string]any{}
+			}
+			cfg["precompressed"] = pm
+		}
+		raw, err := json.Marshal(cfg)
+		if err != nil {
+			return serveObs{}, err
+		}
+		mod, err := cctx.LoadModuleByID("http.handlers.file_server", raw)
+		if err != nil {
+			return serveObs{}, err
+		}
+		fsrv = mod.(*fileserver.FileServer)
+	case 'c':
+		// the configuration as Caddyfile tokens (the lexer is not involved), parsed by
+		// UnmarshalCaddyfile, then provisioned
+		line := 1
+		var toks []caddyfile.Token
+		add := func(texts ...string) {
+			for _, t := range texts {
+				toks = append(toks, caddyfile.Token{File: "Caddyfile", Line: line, Text: t})
+			}
+		}
+		add("file_server")
+		if c.browse {
+			add("browse")
+		}
+		add("{")
+		line++
+		add("fs", fsName)
+		if rootCfg != "" {
+			line++
+			add("root", rootCfg)
+		}
+		if len(hideCfg) > 0 {
+			line++
+			add(append([]string{"hide"}, hideCfg...)...)
+		}
+		if len(indexCfg) > 0 {
+			line++
+			add(append([]string{"index"}, indexCfg...)...)
+		}
+		if len(preNames) > 0 {
+			line++
+			add(append([]string{"precompressed"}, preNames...)...)
+		}
+		if !c.can {
+			line++
+			add("disable_canonical_uris")
+		}
+		if c.pass {
+			line++
+			add("pass_thru")
+		}
+		line++
+		add("}")
+		fsrv = new(fileserver.FileServer)
+		if err := fsrv.UnmarshalCaddyfile(caddyfile.NewDispenser(toks)); err != nil {
+			return serveObs{}, err
+		}
+		if err := fsrv.Provision(cctx); err != nil {
+			return serveObs{}, err
+		}
+	default:
+		fsrv = &fileserver.FileServer{
+			FileSystem:    fsName,
+			Root:          rootCfg,
+			Hide:          hideCfg,
+			IndexNames:    indexCfg,
+			PassThru:      c.pass,
+			CanonicalURIs: &canon,
+		}
+		if c.browse {
+			fsrv.Browse = &fileserver.Browse{}
+			if c.fault.kind == 't' {
+				fsrv.Browse.TemplateFile = faultTemplate()
+			}
+		}
+		for _, name := range preNames {
 			if fsrv.PrecompressedRaw == nil {
 				fsrv.PrecompressedRaw = caddy.ModuleMap{}
 			}
 			fsrv.PrecompressedRaw[name] = json.RawMessage("{}")
 		}
-	}
-	if err := fsrv.Provision(cctx); err != nil {
-		return serveObs{}, err
+		if err := fsrv.Provision(cctx); err != nil {
+			return serveObs{}, err
+		}
 	}
 	// Provision has run (it resolves static hide paths); only the request counts as FS traffic
 	m.opened, m.readFile, m.readDir = nil, nil, nil
@@ -526,8 +639,19 @@ func runMatch(c matchCase) (matchObs, error) {
 // parseServe parses the fields of a serve case; f[0] is ignored ("serve").
 func parseServe(f []string) (serveCase, bool) {
 	var c serveCase
-	if len(f) != 9 && len(f) != 11 && len(f) != 12 {
+	if len(f) != 9 && len(f) != 11 && len(f) != 12 && len(f) != 13 {
 		return c, false
+	}
+	c.via = 's'
+	if len(f) == 13 {
+		v := f[12]
+		if len(v) < 1 || len(v) > 2 || !strings.ContainsRune("sjc", rune(v[0])) || (len(v) == 2 && v[1] != 'd') {
+			return c, false
+		}
+		c.via, c.indexOmitted = v[0], len(v) == 2
+		if c.indexOmitted && f[4] != "." {
+			return c, false
+		}
 	}
 	var e [4]error
 	var ok1, ok2, ok3, ok4 bool
@@ -546,7 +670,7 @@ func parseServe(f []string) (serveCase, bool) {
 	if e[0] != nil || e[1] != nil || e[2] != nil || e[3] != nil || !ok1 || !ok2 || !ok3 || !ok4 || !validCwd(c.cwd) {
 		return c, false
 	}
-	if len(f) == 12 {
+	if len(f) >= 12 {
 		q, err := core.UnHex(f[11])
 		if err != nil {
 			return c, false
@@ -594,6 +718,8 @@ func runPair(f []string) core.Outcome {
 	}
 	var fault faultSpec
 	switch {
+	case f[1] == "n":
+		fault = faultSpec{kind: 'n'} // no fault: any request A, then the probe
 	case f[1] == "t":
 		fault = faultSpec{kind: 't'}
 	case len(f[1]) > 1 && f[1][0] == 'w':
@@ -650,7 +776,7 @@ func runPair(f []string) core.Outcome {
 		}
 		if probe.outcome != base.outcome || probe.body != base.body || probe.status != base.status {
 			o.Failures = append(o.Failures, fail("browse-response-depends-on-history",
-				"after a request for %q on root %q whose listing was not delivered (fault %s), the request %q on ANOTHER instance (root %q, hide %q) is answered %d %q instead of %d %q",
+				"after a request for %q on root %q (fault %s; n = none, otherwise its listing was not delivered), the request %q on ANOTHER instance (root %q, hide %q) is answered %d %q instead of %d %q",
 				a.path, a.root, f[1], b.path, b.root, b.hide, probe.status, clip(probe.body), base.status, clip(base.body)))
 			break
 		}
@@ -661,7 +787,7 @@ func runPair(f []string) core.Outcome {
 	if base.listing != nil {
 		o.Tags = append(o.Tags, "pair:probe-is-listing")
 	}
-	if !faultRendered || base.listing == nil {
+	if fault.kind != 'n' && (!faultRendered || base.listing == nil) {
 		o.Tags = append(o.Tags, "trivial")
 	}
 	o.Impl = probe.outcome + " | " + showList(probe.fs.opened)
